@@ -85,6 +85,46 @@ CHECKS['C15'] = dict(
          'proposes makes the motor\'s own current law yield exactly the limit current. Clipping and arbitration are C14.',
     design='4/C15', engine='sa.sx + sa.loops + sa.match')
 
+SOLVER_T = 'solver IR: Solver.run inlined by abstract evaluation into an event structure over an abstract element array E[0..n-1] (loops as index sets affine in n, loop-carried recurrences, effect summaries of element/rule methods); '
+CHECKS['C01'] = dict(
+    technique=SOLVER_T + 'canonical-term schema match of the propagation loops, index-interval coverage for all n >= 2, '
+              'loop-order vs loop-carried dependence, generic no-stale-read ordering rule per instant context',
+    text='For every instant context of Solver.run (fresh start and every branch combination of the stepping loop) and all '
+         'n >= 2: the loops writing position, speed and acceleration assign exactly E[i+1].ratio * E[i+1].X over E[0..n-2] in '
+         'dependence-compatible order; nothing reads or overwrites a kinematic attribute so that a recorded value is stale; '
+         'the lock clamp zeroes speed and acceleration of all elements together; the recorder appends the live attributes. '
+         'Code shape, not numeric trajectories.', design='4/C01', engine='sa.solver_ir + sa.instant')
+CHECKS['C02'] = dict(
+    technique=SOLVER_T + 'schema match of driving/load/net torque loops with coverage, keyword/attribute binding of the user '
+              'load call and its type check, no-stale-read ordering of all attributes and of the time axis',
+    text='Formulas (driving = driver driving * efficiency * ratio over E[1..n-1]; load upstream / efficiency / ratio over '
+         'E[0..n-2]; net = driving - load for all), binding of the load call to time[-1] and the same element\'s state, its '
+         'isinstance(Torque) check, and the def-use order of the torque phases inside every instant context. The motor law is C08.',
+    design='4/C02', engine='sa.solver_ir + sa.instant')
+CHECKS['C03'] = dict(
+    technique=SOLVER_T + 'loop-carried recurrence extraction for the inertia reduction, canonical-term comparison of the '
+              'equation of motion and of the semi-implicit Euler step, quantity-kind check of stored values',
+    text='Inertia recurrence J <- J*ratio_i + J_i from E[0].J over E[1..n-1] ascending, recomputed on every run path before the '
+         'first instant; acceleration of E[n-1] = net torque / that inertia exactly on not-locked paths; Euler step on E[n-1] '
+         '(speed += acc*dt then position += new speed*dt) once per iteration with dt as a quantity, never at t = 0.',
+    design='4/C03', engine='sa.solver_ir + sa.instant')
+CHECKS['C11'] = dict(
+    technique=SOLVER_T + 'classification of the stepping loop\'s iteration space (integer range of round(T/dt) vs float '
+              'grid / truncation) and canonical-term check of the appended instant start + k*dt with symbolic units',
+    text='Necessary condition for the uniform grid for all decimal inputs: the step count is an integer obtained by rounding '
+         'the unit-blind ratio T/dt, instant k is start + k*dt built with quantity arithmetic, exactly one append per iteration '
+         '(first in the iteration), one instant 0 on a fresh start, none before stepping on a continuation, nothing after the loop.',
+    design='4/C11', engine='sa.solver_ir')
+CHECKS['C12'] = dict(
+    technique=SOLVER_T + 'branch-effect comparison of the continuation path, upward-exposed solver state (fields run() both '
+              'writes and reads must be initialised on the fresh-start branch), symbolic evaluation of Powertrain.reset '
+              '(restore pairing key<->attribute, controlling guards by path intersection, fresh list per key)',
+    text='The continuation branch writes nothing, records nothing and re-initialises nothing before stepping and starts from '
+         'time[-1] with unit-aware arithmetic; solver state cannot leak from an earlier schedule into a fresh start; reset '
+         'empties the axis and every list and restores every attribute from sample [0] of its own variable under that '
+         'variable\'s own guard. Trajectory equality itself follows from determinism and is not decided.',
+    design='4/C12', engine='sa.solver_ir + sa.instant')
+
 NOT_APPLICABLE = {
     'C04': 'limit statement (error = O(dt) as dt -> 0) against an analytic oracle; no sound static argument in reach '
            'bounds a global discretisation error. Its code-shape ingredients (consistent first-order integrator, torque '
